@@ -144,8 +144,8 @@ ASSUME Mode = "gen" =>
 (***************************************************************************)
 (* Judge.  Observation of a case: got[j] = 1 iff cppcheck accepted args[j]  *)
 (* (unit binding: isIntArgValid / isFloatArgValid returned true; end to end:*)
-(* no invalidFunctionArg at the line of the call).  The same case occurs    *)
-(* once per binding ("unit", "e2e-lit", "e2e-var" in field binding).        *)
+(* no invalidFunctionArg at the line of the call; lit = literal argument,   *)
+(* var = local variable initialised with the constant).                     *)
 (*     accepted  <=>  In(x, expr)          unless Open                      *)
 (***************************************************************************)
 JCases == IF Mode = "judge" THEN ndJsonDeserialize(IOEnv.CASES) ELSE <<>>
@@ -166,29 +166,37 @@ Shape(e, arg) ==
    ELSE "notin:" \o KindSet({ItemShape(e[i]) : i \in {j \in DOMAIN e : Near(arg.v, e[j])}}))
   \o "|expr:" \o (IF \E i \in DOMAIN e : e[i].a.dec \/ e[i].b.dec THEN "dec" ELSE "int") \o "|arg:" \o arg.form
 
+\* The three bindings of a case are observed side by side: JObs[n].unit, JObs[n].lit, JObs[n].var.
+Bindings == {"unit", "lit", "var"}
+\* what the specification says about every (case, argument) - evaluated once
+JInfo == [n \in DOMAIN JCases |-> [j \in DOMAIN JCases[n].args |->
+            [in   |-> In(JCases[n].args[j].v, JCases[n].items),
+             open |-> Open(JCases[n].args[j], JCases[n].items),
+             \* at a bound of the expression or one tenth beside it: the cases that separate <= from <, ":" from ","
+             bnd  |-> \E b \in BoundsOf(JCases[n].items) : Abs(JCases[n].args[j].v - b) <= 1]]]
 \* all (case, argument) pairs; sets and Cardinality instead of recursive folds (thousands of cases)
 JPairs == UNION {{<<n, j>> : j \in DOMAIN JCases[n].args} : n \in DOMAIN JCases}
-JArg(p) == JCases[p[1]].args[p[2]]
-JItems(p) == JCases[p[1]].items
-OpenPairs == {p \in JPairs : Open(JArg(p), JItems(p))}
-BadPairs == {p \in JPairs \ OpenPairs : (JObs[p[1]].got[p[2]] = 1) # In(JArg(p).v, JItems(p))}
-\* arguments at a bound of the expression or one tenth beside it: the cases that separate <= from <, : from ,
-BoundaryPairs == {p \in JPairs : \E b \in BoundsOf(JItems(p)) : Abs(JArg(p).v - b) <= 1}
-BadRec(p) == LET c == JCases[p[1]] IN
-  [id |-> c.id, binding |-> c.binding, valid |-> c.valid, arg |-> JArg(p).text, form |-> JArg(p).form, pos |-> c.pos,
-   expected |-> IF In(JArg(p).v, c.items) THEN "accepted" ELSE "invalidFunctionArg",
-   observed |-> IF JObs[p[1]].got[p[2]] = 1 THEN "accepted" ELSE IF JObs[p[1]].got[p[2]] = 0 THEN "invalidFunctionArg" ELSE "no answer",
-   shape |-> Shape(c.items, JArg(p))]
-BadSeq == LET b == SetToSeq(BadPairs) IN [m \in DOMAIN b |-> BadRec(b[m])]
+BadTriples == {t \in JPairs \X Bindings :
+                 /\ ~JInfo[t[1][1]][t[1][2]].open
+                 /\ (JObs[t[1][1]][t[2]][t[1][2]] = 1) # JInfo[t[1][1]][t[1][2]].in}
+BadRec(t) == LET c == JCases[t[1][1]]
+                 a == c.args[t[1][2]]
+                 g == JObs[t[1][1]][t[2]][t[1][2]] IN
+  [id |-> c.id, binding |-> t[2], valid |-> c.valid, arg |-> a.text, form |-> a.form, pos |-> c.pos,
+   expected |-> IF In(a.v, c.items) THEN "accepted" ELSE "invalidFunctionArg",
+   observed |-> IF g = 1 THEN "accepted" ELSE IF g = 0 THEN "invalidFunctionArg" ELSE "no answer",
+   shape |-> Shape(c.items, a)]
+BadSeq == LET b == SetToSeq(BadTriples) IN [m \in DOMAIN b |-> BadRec(b[m])]
 
 ASSUME Mode = "judge" =>
   /\ Len(JCases) = Len(JObs)
-  /\ \A n \in DOMAIN JCases : JCases[n].id = JObs[n].id /\ Len(JCases[n].args) = Len(JObs[n].got)
+  /\ \A n \in DOMAIN JCases : /\ JCases[n].id = JObs[n].id
+                               /\ \A b \in Bindings : Len(JCases[n].args) = Len(JObs[n][b])
   /\ ndJsonSerialize(IOEnv.OUT, BadSeq)
-  /\ PrintT(<<"JUDGED", Cardinality(JPairs), "OPEN", Cardinality(OpenPairs),
-              "INVALID", Cardinality({p \in JPairs : ~In(JArg(p).v, JItems(p))}),
-              "BOUNDARY", Cardinality(BoundaryPairs),
-              "UBOUNDARY", Cardinality({p \in BoundaryPairs : JCases[p[1]].binding = "unit"}), "BAD", Len(BadSeq)>>)
+  /\ PrintT(<<"JUDGED", 3 * Cardinality(JPairs), "PAIRS", Cardinality(JPairs),
+              "OPEN", Cardinality({p \in JPairs : JInfo[p[1]][p[2]].open}),
+              "INVALID", Cardinality({p \in JPairs : ~JInfo[p[1]][p[2]].in}),
+              "BOUNDARY", Cardinality({p \in JPairs : JInfo[p[1]][p[2]].bnd}), "BAD", Len(BadSeq)>>)
 
 (***************************************************************************)
 (* not-null / not-bool.  An argument kind is a piece of source text with    *)
